@@ -60,15 +60,21 @@ def _case_w(draw, cfg, tier):
     for tm in spec["teams"]:
         tm["targets"] = list(range(n))
         tm.pop("notask", None)
-    for w in spec["workers"]:
-        w["skills"] = {str(i): 1.0 for i in range(n) if draw(st.booleans())}
+    if not spec["workers"]:
+        spec["workers"].append({"team": 0, "cost": 1.0, "solo": False, "skills": {}, "fsk": {}, "abs": [], "mw": None})
+    back = draw(st.integers(0, len(spec["workers"]) - 1))  # the one who comes back from leave and can do everything
+    for wi, w in enumerate(spec["workers"]):
         w["solo"] = False
-        if draw(st.booleans()):
-            # away for a stretch and back at a step where nothing else happens
-            a = draw(st.sampled_from([0, 0, 0, 1, 2, 4]))
-            w["abs"] = list(range(a, a + draw(st.integers(1, 6))))
+        w["team"] = 0
+        if wi == back:
+            w["skills"] = {str(i): 1.0 for i in range(n)}
+            w["abs"] = list(range(0, draw(st.integers(2, 7))))
         else:
+            w["skills"] = {str(i): 1.0 for i in range(n) if draw(st.booleans())}
             w["abs"] = []
+            if draw(st.integers(0, 3)) == 0:
+                a0 = draw(st.sampled_from([0, 1, 2, 4]))
+                w["abs"] = list(range(a0, a0 + draw(st.integers(1, 4))))
     if len(spec["deps"]) > 1 and draw(st.booleans()):
         spec["deps"] = spec["deps"][:1]  # mostly parallel work
     for t in spec["tasks"]:
